@@ -133,7 +133,7 @@ claim("C17", "control-dependence rules on every defaulting store, override table
       "default, guarded only by Getenv!=\"\", value Atoi(Getenv); in the three derived-settings getters every Config[K] lookup assigns exactly the field whose "
       "yaml tag is K from that lookup, no field is recomputed after overrides, inherited fields copy the like-named main-connection field; the unit switch "
       "returns int(parsedFloat x 1024^k) with the conversion after the multiplication, numeric part = all but the last two bytes trimmed with comma->point. "
-      "the ${VAR} substitution replaces every occurrence of exactly "${"+name+"}" by LookupEnv(name) only when set, over all matches, and the substituted text is what is parsed. NOT decided: the documented default values themselves, float truncation, regex matching semantics.", "DESIGN.md §3 C17")
+      "the ${VAR} substitution replaces every occurrence of exactly '${'+name+'}' by LookupEnv(name) only when set, over all matches, and the substituted text is what is parsed. NOT decided: the documented default values themselves, float truncation, regex matching semantics.", "DESIGN.md §3 C17")
 
 claim("C18", "exhaustive order-abstraction evaluation (81 relation vectors) of the comparison methods and of the gates; parser tables with existence conditions",
       "Decides for ALL integer field values that Higher is the lexicographic >, Equal the component-wise =, Lower the lexicographic < on (Major, Minor, Patch, "
